@@ -174,6 +174,17 @@ fn merge_branch_seq(branches: impl Iterator<Item = BranchInfo>) -> BranchInfo {
     branch_info
 }
 
+// true iff a cut occurs in `term` at a position transparent to cut.
+fn contains_transparent_cut(term: &Term) -> bool {
+    match term {
+        Term::Literal(_, Literal::Atom(atom!("!"))) => true,
+        Term::Clause(_, atom!(",") | atom!(";") | atom!("->"), terms) if terms.len() == 2 => {
+            terms.iter().any(contains_transparent_cut)
+        }
+        _ => false,
+    }
+}
+
 fn flatten_into_disjunct(
     build_stack: &mut ChunkedTermVec,
     branch_num: BranchNumber,
@@ -607,18 +618,39 @@ impl VariableClassifier {
                                     false
                                 };
 
+                            // NOTE: a cut in the condition is local to the condition
+                            // (ISO 7.8.7), so it gets its own cut point.
+                            let local_cut_in_if = contains_transparent_cut(&if_term);
+
                             state_stack.push(TraversalState::Term(then_term));
                             state_stack.push(TraversalState::Cut {
                                 var_num: self.var_num,
                                 is_global: false,
                             });
+
+                            if local_cut_in_if {
+                                state_stack.push(TraversalState::ResetGlobalCutVarOverride(
+                                    self.global_cut_var_num_override,
+                                ));
+                            }
+
                             state_stack.push(TraversalState::Term(if_term));
+
+                            if local_cut_in_if {
+                                state_stack
+                                    .push(TraversalState::OverrideGlobalCutVar(self.var_num + 1));
+                                state_stack.push(TraversalState::GetCutPoint {
+                                    var_num: self.var_num + 1,
+                                    prev_b: false,
+                                });
+                            }
+
                             state_stack.push(TraversalState::GetCutPoint {
                                 var_num: self.var_num,
                                 prev_b,
                             });
 
-                            self.var_num += 1;
+                            self.var_num += if local_cut_in_if { 2 } else { 1 };
                         }
                         Term::Clause(_, atom!("\\+"), mut terms) if terms.len() == 1 => {
                             let not_term = terms.pop().unwrap();
